@@ -23,7 +23,7 @@ RULE = ("systematic single-edit neighbourhoods of a fixed corpus + seeded mutati
         "distinct = distinct (text, dialect, level)")
 ASSUMPTIONS = ["nesting depth of inputs stays far below the interpreter's recursion limit, so RecursionError is the library's"]
 SPEC = {
-    "quick": {"shards": 16, "time_cap": 200, "corpus_stride": 4, "dialects_per_stmt": 2, "seeded": 20000, "kw_stride": 3, "zoo_stride": 1},
+    "quick": {"shards": 16, "time_cap": 400, "corpus_stride": 4, "dialects_per_stmt": 2, "seeded": 20000, "kw_stride": 3, "zoo_stride": 1},
     "thorough": {"shards": 16, "time_cap": 2400, "corpus_stride": 1, "dialects_per_stmt": 4, "seeded": 150000, "kw_stride": 1},
 }
 INSERTS = ["(", ")", ",", ".", "*", "NOT", "AND", "SELECT", "FROM", "BY", "AS", "NULL", "'x'", "1", "}", "{", "[", "]", ";",
